@@ -72,6 +72,21 @@ def strategy(draw):
                 foreign=bool(text and any(o["op"] == "saveload" for o in ops) and draw(gen.chance(3))))
 
 
+BIG = {"quick": 8, "thorough": 64}
+
+
+@st.composite
+def strategy_big(draw):
+    """Long recordings: 2^15 .. 2^19 samples per component, histories of up to four operations incl. a save/load."""
+    case = draw(strategy())
+    case["rec"]["n"] = draw(gen.big_size(2 ** 15, 2 ** 19))
+    ops = case["ops"][:3]
+    if not any(o["op"] == "saveload" for o in ops):
+        ops.append(dict(op="saveload"))
+    case.update(ops=ops, foreign=False, big=True)
+    return case
+
+
 def _content(x):
     """Content view for metadata comparison: tuple == list."""
     if isinstance(x, dict):
@@ -313,6 +328,8 @@ def check_case(case):
         shutil.rmtree(tmp, ignore_errors=True)
     if case.get("meta") is not None and any(ord(ch) > 127 for ch in str(case["meta"])):
         labels.append("non-ascii-metadata")
+    if case.get("big"):
+        labels.append("big-2^%d-samples" % int(math.log2(case["rec"]["n"])))
     if case.get("foreign"):
         foreign_check(ID, dict(case, foreign=False))
         labels.append("also-in-ascii-locale-interpreter")
